@@ -65,6 +65,44 @@ impl ::core::convert::From<Tsmall> for u8 {
     }
 }
 
+#[asn(choice)]
+
+#[derive(Debug, Clone, PartialEq, Hash)]
+pub enum Tchoice {
+    #[asn(integer(0..7))] I(u8),
+    #[asn(boolean)] B(bool),
+}
+
+impl Tchoice {
+    pub fn variants() -> [Self; 2] {
+        [
+        Tchoice::I(Default::default()),
+        Tchoice::B(Default::default()),
+        ]
+    }
+
+    pub fn value_index(&self) -> usize {
+        match self {
+            Tchoice::I(_) => 0,
+            Tchoice::B(_) => 1,
+        }
+    }
+
+    pub const fn i_min() -> u8 {
+        0
+    }
+
+    pub const fn i_max() -> u8 {
+        7
+    }
+}
+
+impl Default for Tchoice {
+    fn default() -> Tchoice {
+        Tchoice::I(Default::default())
+    }
+}
+
 #[asn(set)]
 
 #[derive(Default, Debug, Clone, PartialEq, Hash)]
@@ -130,7 +168,7 @@ impl Tq1oe1 {
 #[derive(Default, Debug, Clone, PartialEq, Hash)]
 pub struct Tq2mmn {
     #[asn(complex(Tplain, tag(UNIVERSAL(16))))] pub f0: Tplain,
-    #[asn(complex(Tsmall, tag(UNIVERSAL(2))))] pub f1: Tsmall,
+    #[asn(complex(Tchoice, tag(UNIVERSAL(1))))] pub f1: Tchoice,
 }
 
 impl Tq2mmn {
@@ -141,7 +179,7 @@ impl Tq2mmn {
 #[derive(Default, Debug, Clone, PartialEq, Hash)]
 pub struct Tq2mme0 {
     #[asn(complex(Tplain, tag(UNIVERSAL(16))))] pub f0: Tplain,
-    #[asn(optional(complex(Tsmall, tag(UNIVERSAL(2)))))] pub f1: Option<Tsmall>,
+    #[asn(optional(complex(Tchoice, tag(UNIVERSAL(1)))))] pub f1: Option<Tchoice>,
 }
 
 impl Tq2mme0 {
@@ -152,7 +190,7 @@ impl Tq2mme0 {
 #[derive(Default, Debug, Clone, PartialEq, Hash)]
 pub struct Tq2mme1 {
     #[asn(complex(Tplain, tag(UNIVERSAL(16))))] pub f0: Tplain,
-    #[asn(optional(complex(Tsmall, tag(UNIVERSAL(2)))))] pub f1: Option<Tsmall>,
+    #[asn(optional(complex(Tchoice, tag(UNIVERSAL(1)))))] pub f1: Option<Tchoice>,
 }
 
 impl Tq2mme1 {
@@ -163,7 +201,7 @@ impl Tq2mme1 {
 #[derive(Default, Debug, Clone, PartialEq, Hash)]
 pub struct Tq2mme2 {
     #[asn(complex(Tplain, tag(UNIVERSAL(16))))] pub f0: Tplain,
-    #[asn(complex(Tsmall, tag(UNIVERSAL(2))))] pub f1: Tsmall,
+    #[asn(complex(Tchoice, tag(UNIVERSAL(1))))] pub f1: Tchoice,
 }
 
 impl Tq2mme2 {
@@ -174,7 +212,7 @@ impl Tq2mme2 {
 #[derive(Default, Debug, Clone, PartialEq, Hash)]
 pub struct Tq2omn {
     #[asn(optional(complex(Tplain, tag(UNIVERSAL(16)))))] pub f0: Option<Tplain>,
-    #[asn(complex(Tsmall, tag(UNIVERSAL(2))))] pub f1: Tsmall,
+    #[asn(complex(Tchoice, tag(UNIVERSAL(1))))] pub f1: Tchoice,
 }
 
 impl Tq2omn {
@@ -185,7 +223,7 @@ impl Tq2omn {
 #[derive(Default, Debug, Clone, PartialEq, Hash)]
 pub struct Tq2ome0 {
     #[asn(optional(complex(Tplain, tag(UNIVERSAL(16)))))] pub f0: Option<Tplain>,
-    #[asn(optional(complex(Tsmall, tag(UNIVERSAL(2)))))] pub f1: Option<Tsmall>,
+    #[asn(optional(complex(Tchoice, tag(UNIVERSAL(1)))))] pub f1: Option<Tchoice>,
 }
 
 impl Tq2ome0 {
@@ -196,7 +234,7 @@ impl Tq2ome0 {
 #[derive(Default, Debug, Clone, PartialEq, Hash)]
 pub struct Tq2ome1 {
     #[asn(optional(complex(Tplain, tag(UNIVERSAL(16)))))] pub f0: Option<Tplain>,
-    #[asn(optional(complex(Tsmall, tag(UNIVERSAL(2)))))] pub f1: Option<Tsmall>,
+    #[asn(optional(complex(Tchoice, tag(UNIVERSAL(1)))))] pub f1: Option<Tchoice>,
 }
 
 impl Tq2ome1 {
@@ -207,7 +245,7 @@ impl Tq2ome1 {
 #[derive(Default, Debug, Clone, PartialEq, Hash)]
 pub struct Tq2ome2 {
     #[asn(optional(complex(Tplain, tag(UNIVERSAL(16)))))] pub f0: Option<Tplain>,
-    #[asn(complex(Tsmall, tag(UNIVERSAL(2))))] pub f1: Tsmall,
+    #[asn(complex(Tchoice, tag(UNIVERSAL(1))))] pub f1: Tchoice,
 }
 
 impl Tq2ome2 {
@@ -218,7 +256,7 @@ impl Tq2ome2 {
 #[derive(Default, Debug, Clone, PartialEq, Hash)]
 pub struct Tq2mon {
     #[asn(complex(Tplain, tag(UNIVERSAL(16))))] pub f0: Tplain,
-    #[asn(optional(complex(Tsmall, tag(UNIVERSAL(2)))))] pub f1: Option<Tsmall>,
+    #[asn(optional(complex(Tchoice, tag(UNIVERSAL(1)))))] pub f1: Option<Tchoice>,
 }
 
 impl Tq2mon {
@@ -229,7 +267,7 @@ impl Tq2mon {
 #[derive(Default, Debug, Clone, PartialEq, Hash)]
 pub struct Tq2moe0 {
     #[asn(complex(Tplain, tag(UNIVERSAL(16))))] pub f0: Tplain,
-    #[asn(optional(complex(Tsmall, tag(UNIVERSAL(2)))))] pub f1: Option<Tsmall>,
+    #[asn(optional(complex(Tchoice, tag(UNIVERSAL(1)))))] pub f1: Option<Tchoice>,
 }
 
 impl Tq2moe0 {
@@ -240,7 +278,7 @@ impl Tq2moe0 {
 #[derive(Default, Debug, Clone, PartialEq, Hash)]
 pub struct Tq2moe1 {
     #[asn(complex(Tplain, tag(UNIVERSAL(16))))] pub f0: Tplain,
-    #[asn(optional(complex(Tsmall, tag(UNIVERSAL(2)))))] pub f1: Option<Tsmall>,
+    #[asn(optional(complex(Tchoice, tag(UNIVERSAL(1)))))] pub f1: Option<Tchoice>,
 }
 
 impl Tq2moe1 {
@@ -251,7 +289,7 @@ impl Tq2moe1 {
 #[derive(Default, Debug, Clone, PartialEq, Hash)]
 pub struct Tq2moe2 {
     #[asn(complex(Tplain, tag(UNIVERSAL(16))))] pub f0: Tplain,
-    #[asn(optional(complex(Tsmall, tag(UNIVERSAL(2)))))] pub f1: Option<Tsmall>,
+    #[asn(optional(complex(Tchoice, tag(UNIVERSAL(1)))))] pub f1: Option<Tchoice>,
 }
 
 impl Tq2moe2 {
@@ -262,7 +300,7 @@ impl Tq2moe2 {
 #[derive(Default, Debug, Clone, PartialEq, Hash)]
 pub struct Tq2oon {
     #[asn(optional(complex(Tplain, tag(UNIVERSAL(16)))))] pub f0: Option<Tplain>,
-    #[asn(optional(complex(Tsmall, tag(UNIVERSAL(2)))))] pub f1: Option<Tsmall>,
+    #[asn(optional(complex(Tchoice, tag(UNIVERSAL(1)))))] pub f1: Option<Tchoice>,
 }
 
 impl Tq2oon {
@@ -273,7 +311,7 @@ impl Tq2oon {
 #[derive(Default, Debug, Clone, PartialEq, Hash)]
 pub struct Tq2ooe0 {
     #[asn(optional(complex(Tplain, tag(UNIVERSAL(16)))))] pub f0: Option<Tplain>,
-    #[asn(optional(complex(Tsmall, tag(UNIVERSAL(2)))))] pub f1: Option<Tsmall>,
+    #[asn(optional(complex(Tchoice, tag(UNIVERSAL(1)))))] pub f1: Option<Tchoice>,
 }
 
 impl Tq2ooe0 {
@@ -284,7 +322,7 @@ impl Tq2ooe0 {
 #[derive(Default, Debug, Clone, PartialEq, Hash)]
 pub struct Tq2ooe1 {
     #[asn(optional(complex(Tplain, tag(UNIVERSAL(16)))))] pub f0: Option<Tplain>,
-    #[asn(optional(complex(Tsmall, tag(UNIVERSAL(2)))))] pub f1: Option<Tsmall>,
+    #[asn(optional(complex(Tchoice, tag(UNIVERSAL(1)))))] pub f1: Option<Tchoice>,
 }
 
 impl Tq2ooe1 {
@@ -295,7 +333,7 @@ impl Tq2ooe1 {
 #[derive(Default, Debug, Clone, PartialEq, Hash)]
 pub struct Tq2ooe2 {
     #[asn(optional(complex(Tplain, tag(UNIVERSAL(16)))))] pub f0: Option<Tplain>,
-    #[asn(optional(complex(Tsmall, tag(UNIVERSAL(2)))))] pub f1: Option<Tsmall>,
+    #[asn(optional(complex(Tchoice, tag(UNIVERSAL(1)))))] pub f1: Option<Tchoice>,
 }
 
 impl Tq2ooe2 {
@@ -322,6 +360,24 @@ impl ToValue for Tplain {
 }
 impl FromValue for Tsmall { fn from_value(v: &Value) -> Self { Tsmall(FromValue::from_value(v)) } }
 impl ToValue for Tsmall { fn to_value(&self) -> Value { self.0.to_value() } }
+impl FromValue for Tchoice {
+    fn from_value(v: &Value) -> Self {
+        let (i, inner) = match v { Value::Choice(i, inner) => (*i, &**inner), other => panic!("Tchoice: expected Choice, got {other:?}") };
+        match i {
+            0 => Tchoice::I(FromValue::from_value(inner)),
+            1 => Tchoice::B(FromValue::from_value(inner)),
+            _ => panic!("Tchoice: alternative index {i} out of range"),
+        }
+    }
+}
+impl ToValue for Tchoice {
+    fn to_value(&self) -> Value {
+        match self {
+            Tchoice::I(x) => Value::Choice(0, Box::new(x.to_value())),
+            Tchoice::B(x) => Value::Choice(1, Box::new(x.to_value())),
+        }
+    }
+}
 impl FromValue for Tq1mn {
     fn from_value(v: &Value) -> Self {
         let s = match v { Value::Seq(s) => s, other => panic!("Tq1mn: expected Seq, got {other:?}") };
